@@ -7,6 +7,8 @@ LEVEL = 'proof'
 def build(ctx):
     common.encoder_tasks(ctx, lambda m: m.startswith('c.'), reverse=True)
     ctx.task('contracts.emit:task_emit_pass', 'resolve_instructions')
+    # the operands the source named reach the encoder: immediates are their expression's value, register aliases their constant's
+    common.pass_tasks(ctx, ['resolve_immediates', 'resolve_register_aliases'])
     ctx.trust(common.TRUST_BOUNDED)
 
 
